@@ -947,3 +947,9 @@ def _(M, a, c):
     if not isinstance(x, Int): raise Unsupported("min/max of non-integers")
     ge = M.branch(M.binop('Ge', x, y))
     return (x if ge else y) if fn == 'max' else (y if ge else x)
+
+@model_re(r'^<BTreeMap<.*> as Clone>::clone$|^<HashMap<.*> as Clone>::clone$')
+def _(M, a, c):
+    m = V(a[0]); inner = re.match(r'^<(?:BTreeMap|HashMap)<(.*)> as Clone>::clone$', norm_name(c)).group(1)
+    kt, vt = split_top(inner)[:2]
+    return Native(m.kind, m={k: [clone_val(M, e[0], kt), clone_val(M, e[1], vt)] for k, e in m.d['m'].items()})
